@@ -332,3 +332,70 @@ def stream(chk, rng, count):
     chk.bump("corr:tagtree:stray-elif-or-else", sum(1 for s in keep if re.search(r"^(?:(?!wx:if).)*wx:el", s) is not None))
     chk.bump("corr:tagtree:for-with-if", sum(1 for a in reals if re.search(r'\(for "[^"]*" "[^"]*" "[^"]*" "[^"]*" \(if', a) is not None))
     return core.diff_streams(chk, "tagtree", dreqs, reals, model)
+
+
+# ---------------------------------------------------------------------------------------------
+# dependencies at the tag level (C13): leaves_parse (GE/Thm/C13Leaves.lean) + what direct_dependencies lists
+def all_tags(f, out):
+    """every <include> / <import> tag of a generated forest, at any depth (also below elements whose children the tree does not keep)"""
+    for x in f:
+        if x[0] == "gone" and x[1] == 0:
+            out.append("i%d" % x[2])
+        elif x[0] == "el":
+            if x[1][0] == "leaf" and x[1][1].startswith("include#"):
+                out.append(x[1][1][len("include#"):])
+            all_tags(x[3], out)
+    return out
+
+
+def deps_stream(chk, rng, count):
+    """generated tag sequences (every combination of control attributes on <include> / <template is> and around them):
+    (tie) the leaves of the tree the real parser builds = the model's leavesAS (parse xs), and — where every wx:if group is well-formed — = the leaves of the
+    source (the statement of leaves_parse, evaluated on the real tree); (oracle) direct_dependencies = every <import> / <include> tag of the source, and every
+    include element of the real tree is among them"""
+    cases = []
+    for i in range(count):
+        r = rng.fork(("tagdeps", i))
+        f = gen_forest(r, 3, 1 + r.below(6), [0])
+        cases.append((wx_forest(r, f), "(tags %s)" % sx_forest(f), f))
+    real = core.run_harness([core.req("tag_tree", s) for s, _, _ in cases], timeout=3600)
+    model = core.run_driver([core.req("tagleaves", sx) for _, sx, _ in cases]) if core.MODEL_OK else [None] * len(cases)
+    nwf = nleaf = nd = 0
+    for (s, sx, f), a, m in zip(cases, real, model):
+        if a.startswith("PANIC"):
+            chk.violation("input", "the compiler panicked on a sequence of tags: " + a[:200], template=s)
+            continue
+        o = json.loads(a)
+        tree_leaves = re.findall(r'\(leaf "([^"]*)"\)', o["ast"])
+        want = sorted(all_tags(f, []))
+        got = sorted(o["deps"])
+        chk.case(("tagdeps", s), nontrivial=bool(want))
+        if got != want:
+            nd += 1
+            if nd <= 3:
+                chk.violation("input", f"direct_dependencies lists {got}, the <import> / <include> tags of the source are {want}", template=s, got=got, want=want)
+        inc = [x[len("include#"):] for x in tree_leaves if x.startswith("include#")]
+        miss = [x for x in inc if x not in o["deps"]]
+        if miss:
+            chk.violation("input", f"the tree contains <include> elements {miss} that direct_dependencies does not list", template=s, deps=o["deps"])
+        if m is None:
+            continue
+        chk.disagreements_checked += 1
+        mf = m.split("\t")
+        if len(mf) != 3:
+            chk.violation("correspondence", "stream tagleaves: the model could not read the tags", stream="tagleaves", request=sx, model=m)
+            continue
+        ok, lp, ls = mf[0] == "true", [x for x in core.unesc(mf[1]).split("\x1f") if x], [x for x in core.unesc(mf[2]).split("\x1f") if x]
+        nleaf += len(tree_leaves)
+        if lp != tree_leaves:
+            chk.violation("correspondence", "stream tagleaves: the leaves of the real tree differ from the model's leavesAS (parse xs)", stream="tagleaves",
+                          template=s, real=tree_leaves, model=lp)
+        elif ok:
+            nwf += 1
+            if tree_leaves != ls:
+                # leaves_parse says this cannot happen in the model; on the real tree it is the property itself
+                chk.violation("input", f"every wx:if group is well-formed, but the tree keeps the leaves {tree_leaves} of the source's {ls}", template=s)
+    chk.bump("corr:tagleaves:cases", len(cases))
+    chk.bump("corr:tagleaves:well-formed-groups", nwf)
+    chk.bump("corr:tagleaves:leaves-in-trees", nleaf)
+    chk.bump("oracle:direct-dependencies-vs-source-tags", len(cases))
